@@ -5,7 +5,7 @@ import json, os, time, concurrent.futures as cf
 from lib import vlib
 
 PID = "C09"
-DEVS = ["cmp_update_creates_new", "update_keeps_cache", "failed_save_leaves_promise", "offsets_ignore_header",
+DEVS = ["cmp_update_creates_new", "update_keeps_cache", "failed_save_leaves_promise", "failed_create_leaves_promise", "offsets_ignore_header",
         "no_separator_before_endobj", "repeated_update_merges", "pending_kept"]
 
 
@@ -141,13 +141,16 @@ def run(tier, seed):
     with cf.ThreadPoolExecutor(max_workers=3) as ex:
         f_mc = ex.submit(vlib.run_tlc, "MC_Store", mc_cfg, PID, "mc", workers=6, timeout=3000, heap="12g")
         f_gen = ex.submit(vlib.run_tlc, "MC_Store", gen_cfg, PID, "gen", workers=6, timeout=3000, heap="12g")
+        f_stm = ex.submit(vlib.run_tlc, "MC_Store", "Store_stm_gen.cfg", PID, "gen_stm", workers=4, timeout=3000, heap="8g", coverage=False)
         f_w = {d: ex.submit(vlib.run_tlc, "MC_Store", "Store_w_%s.cfg" % d, PID, "w_" + d, workers=2, timeout=900,
                             expect_violation=True, coverage=False) for d in DEVS}
         mc = f_mc.result()
         gen = f_gen.result()
+        stm = f_stm.result()
         wit = {d: f.result()["violation"] for d, f in f_w.items()}
     tlc_runs.append({"cfg": mc_cfg, "distinct": mc["distinct"], "generated": mc["generated"], "wall_s": mc["wall_s"]})
     tlc_runs.append({"cfg": gen_cfg, "distinct": gen["distinct"], "generated": gen["generated"], "cases": len(gen["cases"]), "wall_s": gen["wall_s"]})
+    tlc_runs.append({"cfg": "Store_stm_gen.cfg", "distinct": stm["distinct"], "generated": stm["generated"], "cases": len(stm["cases"]), "wall_s": stm["wall_s"]})
     if mc["violation"]:
         v.model_violation("Store:%s:%s" % (mc_cfg, mc["violation"]), mc)
     for act in ("Create", "Update", "Promise", "Fulfil", "Get", "Save"):
@@ -156,7 +159,7 @@ def run(tier, seed):
     for d, viol in wit.items():
         if not viol:
             raise vlib.ToolError("deviation %s is no longer refuted by the model (spec rot)" % d)
-    cases = gen["cases"]
+    cases = gen["cases"] + stm["cases"]
     n_all = len(cases)
     cases = drop_prefixes(cases)
     sim = vlib.run_tlc("MC_Store", "Store_sim.cfg", PID, "sim", workers=1, timeout=20 if q else 240,
